@@ -28,6 +28,7 @@ type reqSpec struct {
 
 // burstCtl: what happens around burst i (same index as Bursts).
 type burstCtl struct {
+	Queue  bool   `json:"queue"`  // the link queues the frames of this burst (header views kept by reference, as protocol/link/channel does) and transmits them afterwards
 	Stall  bool   `json:"stall"`  // the link's transmit path is stalled while the burst is injected (the echo queue fills up)
 	RmAddr string `json:"rmaddr"` // after the burst has quiesced: remove this address (own1/own2) from the interface
 }
@@ -156,6 +157,10 @@ func runScenario(si int, sc scenario, tr *vh.Trace, shortWait *bool) {
 		if bi < len(sc.Ctl) {
 			ctl = sc.Ctl[bi]
 		}
+		if ctl.Queue {
+			link.SetRetain(true)
+			tr.Log(map[string]interface{}{"ev": "note", "why": "tx queued"})
+		}
 		if ctl.Stall {
 			mu.Lock()
 			stallCh = make(chan struct{})
@@ -256,6 +261,21 @@ func runScenario(si int, sc scenario, tr *vh.Trace, shortWait *bool) {
 		if ctl.Stall {
 			time.Sleep(2 * time.Millisecond)
 			unstall()
+		}
+		if ctl.Queue {
+			// let the repliers work the burst off into the queue (until the queue length is stable), then transmit
+			last, same := -1, 0
+			for i := 0; i < 600 && same < 10; i++ {
+				n := link.Held()
+				if n == last {
+					same++
+				} else {
+					last, same = n, 0
+				}
+				time.Sleep(5 * time.Millisecond)
+			}
+			link.SetRetain(false)
+			link.Flush()
 		}
 		// wait for the replies that are owed (state-based; the deadline is only a give-up bound)
 		deadline := 10 * time.Second
